@@ -329,3 +329,50 @@ func F8(deep bool, yield func(Program)) {
 		}
 	}
 }
+
+// F8Prelude is the fixed first piece of the rejected-composition sessions (C18).
+func F8Prelude() []*N { return f8prelude() }
+
+// F8Rejected yields every context (directly and through every wrapper) filled with an expression the
+// compiler must reject: an undefined name in eight syntactic positions (bare, in an immediately called
+// function literal, in a function literal that is a pipe stage, in the arguments of a pipe stage, in a
+// ternary branch, in an if-expression block, in an interpolation, as a call target).
+func F8Rejected(yield func(meta string, body []*N)) {
+	u := func() *N { return Id("undefined_name") }
+	inners := []f8inner{
+		{"bare", func() *N { return u() }},
+		{"iife", func() *N { return Call(Func("", nil, Return(u()))) }},
+		{"func-as-pipe-stage", func() *N { return Pipe(Int(1), Func("", P("a"), Return(u()))) }},
+		{"pipe-stage-argument", func() *N { return Pipe(Int(1), callE("add", u())) }},
+		{"ternary-branch", func() *N { return Tern(Bool(true), Int(1), u()) }},
+		{"if-expr-block", func() *N { return IfExpr(Bool(true), []*N{Expr(Int(1))}, []*N{Expr(u())}) }},
+		{"interpolation", func() *N { return callE("len", Interp(u())) }},
+		{"call-target", func() *N { return Call(u(), Int(1)) }},
+	}
+	wraps := append([]f8wrap{{"direct", func(h *N) *N { return h }}}, f8wraps()...)
+	for _, c := range f8contexts() {
+		for _, in := range inners {
+			for _, w := range wraps {
+				in, w := in, w
+				h := func() *N { return w.mk(in.mk()) }
+				if h() == nil {
+					continue
+				}
+				body := c.mk(h)
+				if body == nil {
+					continue
+				}
+				bad := false
+				for _, b := range body {
+					if nestedTernary(b, false) {
+						bad = true
+					}
+				}
+				if bad {
+					continue
+				}
+				yield(fmt.Sprintf("%s <- %s <- %s", c.name, w.name, in.name), body)
+			}
+		}
+	}
+}
